@@ -867,6 +867,19 @@ def branches_and_nodes(
         if isinstance(trace, LineString)
     ]
 
+    # Clip if necessary. Clipping is done before snapping as clipping can
+    # slightly move the coordinates of a trace that another trace abuts.
+    if not already_clipped:
+        traces_list = [
+            trace
+            for trace in crop_to_target_areas(
+                gpd.GeoSeries(traces_list, crs=traces.crs),
+                areas_geosrs,
+                keep_column_data=False,
+            ).geometry.values
+            if isinstance(trace, LineString)
+        ]
+
     # Snapping occurs multiple times due to possible side effects of each snap
     loops = 0
     traces_list, any_changes_applied = snap_traces(
@@ -886,14 +899,6 @@ def branches_and_nodes(
         report_snapping_loop(loops, allowed_loops=allowed_loops)
 
     traces_geosrs = gpd.GeoSeries(traces_list, crs=traces.crs)
-
-    # Clip if necessary
-    if not already_clipped:
-        traces_geosrs = crop_to_target_areas(
-            traces_geosrs,
-            areas_geosrs,
-            keep_column_data=False,
-        ).geometry
 
     # Remove too small geometries.
     traces_geosrs = traces_geosrs.loc[
